@@ -346,7 +346,7 @@ func (g *Gen) indexTerm(x, i Term, env *Env) (Term, error) {
 	var et types.Type
 	switch u := x.T.Underlying().(type) {
 	case *types.Slice:
-		arr, idx, et = fmt.Sprintf("(sarr %s)", x.S), fmt.Sprintf("(+ (soff %s) %s)", x.S, i.S), u.Elem()
+		arr, idx, et = fmt.Sprintf("(sarr %s)", x.S), fmt.Sprintf("(idx %s %s)", x.S, i.S), u.Elem()
 	case *types.Pointer:
 		at, ok := u.Elem().Underlying().(*types.Array)
 		if !ok {
@@ -545,6 +545,10 @@ func (g *Gen) evalBin(n *Node, env *Env) (Term, error) {
 	case "==>":
 		return Term{S: imp(a.S, b.S), Sort: "Bool"}, nil
 	case "<==>":
+		if strings.Contains(a.S, "(forall ") || strings.Contains(a.S, "(exists ") || strings.Contains(b.S, "(forall ") || strings.Contains(b.S, "(exists ") {
+			// keep quantifier polarity visible to goal skolemisation
+			return Term{S: and(imp(a.S, b.S), imp(b.S, a.S)), Sort: "Bool"}, nil
+		}
 		return Term{S: fmt.Sprintf("(= %s %s)", a.S, b.S), Sort: "Bool"}, nil
 	case "==", "!=":
 		var e string
@@ -650,7 +654,11 @@ func (g *Gen) evalCall(n *Node, env *Env) (Term, error) {
 		}
 		rng := fmt.Sprintf("(and (<= %s %s) (< %s %s))", lo.S, q, q, hi.S)
 		if name == "forall" {
-			return Term{S: fmt.Sprintf("(forall ((%s Int)) (=> %s %s))", q, rng, p), Sort: "Bool"}, nil
+			body := fmt.Sprintf("(=> %s %s)", rng, p)
+			if pats := triggersFor(body, q); pats != "" {
+				return Term{S: fmt.Sprintf("(forall ((%s Int)) (! %s %s))", q, body, pats), Sort: "Bool"}, nil
+			}
+			return Term{S: fmt.Sprintf("(forall ((%s Int)) %s)", q, body), Sort: "Bool"}, nil
 		}
 		return Term{S: fmt.Sprintf("(exists ((%s Int)) (and %s %s))", q, rng, p), Sort: "Bool"}, nil
 	case "forallI", "forallS", "forallB", "existsI", "existsS":
@@ -668,6 +676,11 @@ func (g *Gen) evalCall(n *Node, env *Env) (Term, error) {
 		kw := "forall"
 		if strings.HasPrefix(name, "exists") {
 			kw = "exists"
+		}
+		if kw == "forall" {
+			if pats := triggersFor(p, q); pats != "" {
+				return Term{S: fmt.Sprintf("(forall ((%s %s)) (! %s %s))", q, srt, p, pats), Sort: "Bool"}, nil
+			}
 		}
 		return Term{S: fmt.Sprintf("(%s ((%s %s)) %s)", kw, q, srt, p), Sort: "Bool"}, nil
 	case "ite":
@@ -814,7 +827,7 @@ func (g *Gen) evalCall(n *Node, env *Env) (Term, error) {
 			return Term{}, fmt.Errorf("indom on %s", m.T)
 		}
 		md, _, ks, _ := g.mapHeaps(mt)
-		return Term{S: fmt.Sprintf("(select (select %s %s) %s)", g.svIn(env.st, md, "(Array Int (Array "+ks+" Bool))"), m.S, k.S), Sort: "Bool"}, nil
+		return Term{S: fmt.Sprintf("(and (not (= %s 0)) (select (select %s %s) %s))", m.S, g.svIn(env.st, md, "(Array Int (Array "+ks+" Bool))"), m.S, k.S), Sort: "Bool"}, nil
 	}
 	if m, ok := g.P.cs.Macros[name]; ok {
 		if len(m.Params) != len(args) {
@@ -902,4 +915,63 @@ func (g *Gen) specFnText() string {
 		b.WriteString(r + "\n")
 	}
 	return b.String()
+}
+
+// triggersFor picks E-matching patterns for a quantifier over variable q: applications of
+// idx / at / select / elemref / spec functions that have q itself as a direct argument.
+func triggersFor(body, q string) string {
+	t := parseSx(body)
+	seen := map[string]bool{}
+	var pats []string
+	var walk func(n *sx, underQuant bool)
+	walk = func(n *sx, underQuant bool) {
+		if n == nil || n.kids == nil {
+			return
+		}
+		h := n.head()
+		if h == "forall" || h == "exists" {
+			return
+		}
+		direct := false
+		for _, k := range n.kids[1:] {
+			if k.kids == nil && k.atom == q {
+				direct = true
+			}
+		}
+		if direct {
+			switch h {
+			case "idx", "at", "select", "elemref":
+				s := n.String()
+				if !seen[s] {
+					seen[s] = true
+					pats = append(pats, s)
+				}
+			case "and", "or", "not", "=>", "=", "<", "<=", ">", ">=", "+", "-", "*", "ite", "store", "div", "mod", "sub":
+			default:
+				if h != "" && !strings.HasPrefix(h, "(") {
+					s := n.String()
+					if !seen[s] {
+						seen[s] = true
+						pats = append(pats, s)
+					}
+				}
+			}
+		}
+		for _, k := range n.kids {
+			walk(k, underQuant)
+		}
+	}
+	walk(t, false)
+	if len(pats) == 0 {
+		return ""
+	}
+	// prefer idx/at patterns (they name the indexed element); keep at most 3 alternatives
+	if len(pats) > 3 {
+		pats = pats[:3]
+	}
+	var b strings.Builder
+	for _, p := range pats {
+		b.WriteString(":pattern (" + p + ") ")
+	}
+	return strings.TrimSpace(b.String())
 }
